@@ -35,7 +35,7 @@ BASE_STYLES = ["import_mod", "from_name", "import_mod_as", "from_name_as"]
 
 @st.composite
 def cases(draw):
-    action = draw(st.sampled_from(["move_global", "move_global", "move_module", "to_package", "rename_module", "move_method", "move_leaf_to_root"]))
+    action = draw(st.sampled_from(["move_global", "move_global", "move_module", "to_package", "rename_module", "move_method", "move_leaf_to_root", "move_leaf_to_pkg2"]))
     return {
         "action": action,
         "element": draw(st.sampled_from(["function", "class", "variable"])),
@@ -92,6 +92,7 @@ def render(case):
     files["src.py"] = src
     files["dst.py"] = ("import base\ndef dst_own():\n    return base.BASE\n" if case["dst_has_imports"] else "def dst_own():\n    return 1\n")
     files["pkg/__init__.py"] = ""
+    files["pkg2/__init__.py"] = ""
     files["pkg/leaf.py"] = "def leaf_fn():\n    return 7\nLEAF = 3\n"
     files["pkg/sub.py"] = "def sub_own():\n    return 2\n"
     mains = ["import src\nimport dst\nimport pkg.sub\nimport pkg.leaf\nprint(src.other(), dst.dst_own(), pkg.sub.sub_own())\n"]
@@ -145,7 +146,7 @@ def describe(case):
 def hazards(case):
     hz = set()
     a = case["action"]
-    if a == "move_leaf_to_root" and "from_pkg_import_as" in case["leaf_clients"]:
+    if a in ("move_leaf_to_root",) and "from_pkg_import_as" in case["leaf_clients"]:
         hz.add("from_pkg_import_module_as_alias_left_behind")
     if a == "move_global" and "from_name_as" in case["clients"]:
         hz.add("aliased_from_import_of_moved_global_left_behind")
@@ -190,6 +191,8 @@ def evaluate(case, env):
                 changes = move.create_move(project, project.get_file("src.py")).get_changes(project.get_folder("pkg"))
             elif a == "move_leaf_to_root":
                 changes = move.create_move(project, project.get_file("pkg/leaf.py")).get_changes(project.root)
+            elif a == "move_leaf_to_pkg2":
+                changes = move.create_move(project, project.get_file("pkg/leaf.py")).get_changes(project.get_folder("pkg2"))
             elif a == "to_package":
                 changes = ModuleToPackage(project, project.get_file("src.py")).get_changes()
             elif a == "rename_module":
